@@ -23,7 +23,7 @@ from vplib.common import VERIF
 
 MANIFEST = dict(
     category="proof",
-    text="PARTIAL. Proved in Coq (props/C01.v, 15 theorems, no axioms): (1) for a CORE FRAGMENT of the language (typed/Core.v: literals, tuples, positional field access, integer_add / binary_length, bare and type-ascribed binders with nil-narrowing, blocks on a variable with forward and complement narrowing exactly as compile_block implements them after the repairs F13 F53 F54 F59 F66 F74 F80 F86, calls of monomorphic non-dispatching functions) full type safety of an AST-level typing judgement: core_soundness (accepted at T and evaluates to v => v in [[T]]), core_progress (an accepted expression never gets stuck and terminates), core_type_safety, with subty_sound / disj_sound / split_sound for the relations and the narrowing split it uses; the judgement is tied to the real compiler on every run: on generated core programs the extracted `infer` must equal the real compiler's inferred type and the extracted `eval` the real VM's value; (2) the semantic facts the compiler's rules rely on beyond the fragment: builtin_result_typed / builtin_only_domain_errors over the 43 registered TypeSpecs (compared with the real registry on every run), get_typed, data_moves_origin / data_moves_preserve_wt, wt_hereditary, istype_refines (relative to C08's table statement and C09's soundness), inhabv_sound_fo (the oracle's decision procedure implies Sem.inhab on first-order values), monitor_sound (obligations O1-O4 at every step => no VM-level type failure and the result inhabits the entry's result type). NOT proved: type_soundness for every accepted program - there is no model of compiler.rs beyond the core fragment (labels, partial types, generics, recursive types, closures, tail calls, processes, dispatch tables, aliasing by provenance are outside it); that part is decided per explored program by an oracle on the real compiler + VM whose judgement `result inhabits inferred type` is the extracted Coq definition, over corpus (open findings + must-pass regression probes), all repository sources, mutations and two type-directed generators, with functions applied to inputs enumerated from their inferred parameter types.",
+    text="PARTIAL. Proved in Coq (props/C01.v, 16 theorems, no axioms): (1) for a CORE FRAGMENT of the language (typed/Core.v: literals, named / labelled tuples, field access by position and by label, integer_add / binary_length, bare and type-ascribed binders with nil-narrowing, blocks on a variable with forward and complement narrowing exactly as compile_block implements them after the repairs F13 F53 F54 F59 F66 F74 F80 F86, calls of monomorphic non-dispatching functions) full type safety of an AST-level typing judgement: core_soundness (accepted at T and evaluates to v => v in [[T]]), core_progress (an accepted expression never gets stuck and terminates), core_type_safety, core_program_safety (every function definition is checked, called or not), with subty_sound / disj_sound / split_sound for the relations and the narrowing split it uses; the judgement is tied to the real compiler on every run: on generated core programs the extracted `infer` must equal the real compiler's inferred type and the extracted `eval` the real VM's value; (2) the semantic facts the compiler's rules rely on beyond the fragment: builtin_result_typed / builtin_only_domain_errors over the 43 registered TypeSpecs (compared with the real registry on every run), get_typed, data_moves_origin / data_moves_preserve_wt, wt_hereditary, istype_refines (relative to C08's table statement and C09's soundness), inhabv_sound_fo (the oracle's decision procedure implies Sem.inhab on first-order values), monitor_sound (obligations O1-O4 at every step => no VM-level type failure and the result inhabits the entry's result type). NOT proved: type_soundness for every accepted program - there is no model of compiler.rs beyond the core fragment (partial types, generics, recursive types, closures, tail calls, processes, dispatch tables, aliasing by provenance are outside it); that part is decided per explored program by an oracle on the real compiler + VM whose judgement `result inhabits inferred type` is the extracted Coq definition, over corpus (open findings + must-pass regression probes), all repository sources, mutations and two type-directed generators, with functions applied to inputs enumerated from their inferred parameter types.",
     design_ref="§5 C01",
     note="Trusted: Coq kernel, extraction (ExtrOcamlBasic), OCaml driver, Rust harness qv_typed, the Python generators/mutator/shrinker/renderer of core programs. Judgement domain of the oracle: type variables are read as top; a function value whose declared type mentions a type variable is `undecided` (counted); function-signature containment is decided over first-order values enumerated to depth 2 (approximate). InvalidArgument is accepted as the documented value-domain error unless its message is one of the executor's own (listed in c01.py). Panics are counted, not judged (C12/C15). Core fragment: the bare binder rule is the sound one (binds nil); the real compiler still strips nil there (finding F27), so the generator binds no nilable value with a bare binder and no variable to a variable (aliasing by provenance is not modelled). Known findings are routed by semantic signatures (re-running variants of the failing program on the real compiler), table-driven by known_findings.json; corpus/c01_regressions.txt holds must-pass probes of every repaired finding.",
     technique="Coq proof of type safety for a core fragment (typing judgement + evaluator, judgement compared with the real compiler's inferred types on every run) + Coq proofs of the typing-rule lemmas and of the monitor + oracle on the real compiler/VM with an extracted Coq judgement, type-directed generation, mutation of repository sources, enumeration of inputs from inferred parameter types",
@@ -681,10 +681,16 @@ class Classifier:
         if not orders:
             return False
         variants = []
+        head, sep, last = src.rpartition("\n")
         for labs in orders[:6]:
             v = canon_fields(src, labs)
             if v != src and v not in variants:
                 variants.append(v)
+            # several partial parameters with conflicting orders: reorder the final step only (the
+            # argument the check applied to a function of the program)
+            v2 = head + sep + canon_fields(last, labs)
+            if sep and v2 != src and v2 not in variants:
+                variants.append(v2)
         if not variants:
             return False
         recs = self.outcomes(variants, mods)
